@@ -442,6 +442,8 @@ func InvalidKind(err error) string {
 			return "err:invalid:name"
 		case strings.HasPrefix(msg, "groups must not contain an empty name"):
 			return "err:invalid:empty-group"
+		case strings.HasPrefix(msg, "encoded certificate is"):
+			return "err:invalid:too-large"
 		}
 		return "err:invalid:other:" + strings.ReplaceAll(msg, " ", "_")
 	}
